@@ -119,7 +119,7 @@ Acceptable(p, u) ==
 \* What the property demands for (payload, union):
 \*   exp = "value": the result must be one of `set` (0 stands for null) and, when `lossless`, re-encode to p
 \*   exp = "error": decoding must be reported as an error (why = "unmapped" | "mapped_fails")
-\*   exp = "unspecified": the payload conforms to no variant - the property is silent
+\*   exp = "unspecified": the payload conforms to no variant - only C14.not_a_variant is judged
 Expect(e, set, ll, why) == [exp |-> e, set |-> set, lossless |-> ll, why |-> why]
 ChooseVariant(p, u) ==
   IF p.t = "null" THEN (IF u.nullable THEN Expect("value", {0}, TRUE, "-") ELSE Expect("unspecified", {}, FALSE, "-"))
@@ -224,19 +224,22 @@ KindMatches(ckind, T) ==
 
 ChosenIdx(u, o) ==
   IF o.chosen > 0 THEN o.chosen
-  ELSE IF o.ckind = "null" THEN 0
+  ELSE IF o.ckind = "null" THEN (IF u.nullable THEN 0 ELSE -1)
   ELSE LET hits == {i \in 1..Len(u.vars) : KindMatches(o.ckind, u.vars[i])}
        IN IF hits = {} THEN -1 ELSE MinOf(hits)
 
 \* e is ChooseVariant(p, u) (passed in so that callers evaluate it once per payload)
+\* C14.not_a_variant: whatever the payload, a successful decode is a value of one of the union's variants (or null
+\* for a nullable union) - never a raw container that belongs to no variant ("decoded as the right variant").
 JudgeE(p, u, o, e) ==
-  CASE e.exp = "unspecified" -> "ok"
+  CASE e.exp = "unspecified" -> IF o.out = "ok" /\ ChosenIdx(u, o) = -1 THEN "C14.not_a_variant" ELSE "ok"
     [] e.exp = "error" ->
          IF o.out = "err" THEN "ok"
          ELSE IF e.why = "unmapped" THEN "C14.unmapped_guess" ELSE "C14.retry_after_mapped_failure"
     [] e.exp = "value" ->
          IF o.out = "err" THEN "C14.error_on_conforming"
          ELSE IF u.disc.mode # "none" /\ p.t # "null" /\ ChosenIdx(u, o) \notin e.set THEN "C14.wrong_variant_with_discriminator"
+         ELSE IF ChosenIdx(u, o) = -1 THEN "C14.not_a_variant"
          ELSE IF e.lossless /\ ~Eq(o.reenc, p) THEN "C14.lossy"
          ELSE "ok"
 Judge(p, u, o) == JudgeE(p, u, o, ChooseVariant(p, u))
